@@ -104,7 +104,7 @@ def _batches(ctx: Ctx):
                  "MC_Archive_t_mio2.cfg", "MC_Archive_t_pop3.cfg"]
     for cfg in cfgs:
         yield cfg[:-4], ctx.behaviours("MC_Archive", cfg)
-    sims = ctx.simulate("MC_Archive", "MC_Archive_sim.cfg", num=250 if ctx.quick else 2000, depth=9)
+    sims = ctx.simulate("MC_Archive", "MC_Archive_sim.cfg", num=250 if ctx.quick else 1200, depth=9)
     yield "simulated", [{"init": st["init0"], "hist": st["hist"], "seed": ctx.seed + k}
                         for k, st in enumerate(sims) if st.get("hist")]
 
